@@ -40,7 +40,11 @@ LIST_OPS = ([("assign", v) for v in ((), (0,), (1, 0), (2, 2), (0, 1, 2), (0, 3)
             # the list extended by itself, augmented assignment through an alias, lazily computed values that read the
             # field's own contents, and a falsy element (index 4)
             + [("extend_itself",), ("iadd_alias", (2,)), ("assign_filter_self",), ("assign_reversed_self",),
-               ("assign_chain_self", 2), ("append", 4), ("assign", (4, 0)), ("insert", 0, 4)])
+               ("assign_chain_self", 2), ("append", 4), ("assign", (4, 0)), ("insert", 0, 4)]
+            # item assignment with a slice: replacement, pure insertion, the value given as a one-shot iterator, and
+            # the list's own contents as the value
+            + [("setslice", (0, 1), (1, 2)), ("setslice", (0, 0), (2,)), ("setslice_gen", (0, 1), (2, 0)),
+               ("setslice_self", (0, 0))])
 SET_OPS = ([("assign", v) for v in ((), (0,), (1, 0), (0, 1, 2))]
            + [("assign_gen", (2, 1)), ("assign_self",), ("assign_copy",)]
            + [("ior", (e,)) for e in E] + [("ior", (1, 2))]
@@ -221,6 +225,15 @@ class World:
                 if not m:
                     return False
                 f()[op[1]] = U[op[2]]; m[op[1]] = U[op[2]]
+            elif k == "setslice":
+                sl = slice(*op[1]); new = [U[i] for i in op[2]]
+                f()[sl] = list(new); m[sl] = new
+            elif k == "setslice_gen":
+                sl = slice(*op[1]); new = [U[i] for i in op[2]]
+                f()[sl] = iter(new); m[sl] = new
+            elif k == "setslice_self":
+                sl = slice(*op[1])
+                x = f(); x[sl] = x; m[sl] = list(m)
             else:
                 raise ValueError(op)
         else:
@@ -364,7 +377,7 @@ def run_case(case):
 
 def finish(run):
     if run.exhaustive and not run.failures:
-        for k in ("list:setitem", "list:extend_gen", "set:update_gen", "set:ior", "list:iadd", "list:assign_self"):
+        for k in ("list:setitem", "list:setslice", "list:setslice_gen", "list:setslice_self", "list:extend_gen", "set:update_gen", "set:ior", "list:iadd", "list:assign_self"):
             if not run.features.get(k):
                 raise HarnessError(f"vacuous: {k} never exercised")
 
@@ -418,7 +431,16 @@ def _m_update_skips_existing_relation():
     M.MonitoredSet.update = update
 
 
-MUTANTS = {"extend_plain": _m_extend_plain, "setitem_no_on_add": _m_setitem_no_on_add, "extend_twice": _m_extend_twice,
+def _m_setslice_value_as_one_item():
+    # the slice assignment before the C16-F7 fix: the assigned iterable is handed to the hook as one item
+    from krrood.ontomatic.property_descriptor import monitored_container as M
+    def setitem(self, idx, value):
+        value = self._on_add(value)
+        list.__setitem__(self, idx, value)
+    M.MonitoredList.__setitem__ = setitem
+
+
+MUTANTS = {"setslice_value_as_one_item": _m_setslice_value_as_one_item, "extend_plain": _m_extend_plain, "setitem_no_on_add": _m_setitem_no_on_add, "extend_twice": _m_extend_twice,
            "update_skips": _m_update_skips_existing_relation}
 
 
